@@ -109,7 +109,78 @@ func c17(c *Ctx) {
 	}
 }
 
+// c17sized: success means a complete file also when the body (or the image) is
+// exactly a power of two long; a handful of fault points around such sizes.
+func c17sized(c *Ctx, i int, rng *rand.Rand) {
+	target := sizedTargets[(i/16)%len(sizedTargets)]
+	mode := modeFor(i, rng)
+	id := fmt.Sprintf("z%d", i)
+	if !c.Case(id, map[string]interface{}{"op": "WriteTo+Persist", "class": "sized", "body_bytes": target, "mode": mode}) {
+		return
+	}
+	defer c.End()
+	zx.SetChunkMode(mode)
+	b := sizedBatch(rng, target)
+	if b == nil {
+		c.R.Inc("sized_batches_not_reached", 1)
+		return
+	}
+	m := model.Build(b)
+	guard(c.R, id, func() {
+		seg, size, err := zx.Build(b)
+		if err != nil || size != target {
+			c.R.Fail("build-err", "%s: %v (size %d, want %d)", id, err, size, target)
+			return
+		}
+		defer seg.Close()
+		w := &failWriter{limit: 1 << 40}
+		n, err := writeTo(seg, w)
+		if err != nil || uint64(n) != target+52 || uint64(len(w.buf)) != target+52 {
+			c.R.Fail("nofault-writeto", "%s: fault-free WriteTo of a body of %d bytes: n=%d err=%v, %d bytes reached the writer, want %d", id, target, n, err, len(w.buf), target+52)
+			return
+		}
+		checkFileFooter(c.R, id+" WriteTo", w.buf, m.NumDocs, mode)
+		path, outDir := outPath(c, "c17z")
+		defer os.RemoveAll(outDir)
+		if err := zx.Persist(seg, path); err != nil {
+			c.R.Fail("persist-nofault-err", "%s: %v", id, err)
+			return
+		}
+		if data := readFile(path); string(data) != string(w.buf) {
+			c.R.Fail("persist-bytes", "%s: Persist wrote %d bytes, WriteTo %d, or they differ", id, len(data), len(w.buf))
+		}
+		c17complete(c, id+" persist", path, m, mode, rng)
+		c.R.Inc("success_runs_checked", 1)
+		size64 := int(target) + 52
+		for _, l := range []int{0, 4095, 4096, size64 / 2, int(target) - 1, int(target), int(target) + 1, size64 - 4, size64 - 1, 1 << 20, 1<<20 - 1} {
+			if l < 0 || l >= size64 {
+				continue
+			}
+			fw := &failWriter{limit: l, short: l%2 == 1}
+			if n, err := writeTo(seg, fw); err == nil {
+				c.R.Fail("writeto-swallowed", "%s: WriteTo with the writer failing at byte %d of %d reported success (n=%d)", id, l, size64, n)
+				break
+			}
+			c.R.Inc("faults_writeto", 1)
+			os.Remove(path)
+			var perr error
+			withFsizeLimit(uint64(l), func() { perr = zx.Persist(seg, path) })
+			if perr == nil || exists(path) {
+				c.R.Fail("persist-swallowed", "%s: Persist with the write crossing byte %d of %d failing: err=%v, file left: %v", id, l, size64, perr, exists(path))
+				break
+			}
+			c.R.Inc("faults_persist", 1)
+		}
+		c.R.Inc("sized_images_checked", 1)
+	})
+	c.DistinctN(1)
+}
+
 func c17build(c *Ctx, i int, rng *rand.Rand) {
+	if i%16 == 12 {
+		c17sized(c, i, rng)
+		return
+	}
 	class := []string{"small", "one", "empty", "mid", "deep", "stored"}[(i/4)%6]
 	b := model.Gen(rng, class, model.GenOpts{Syn: rng.Intn(3) == 0, Vec: VecBuild && rng.Intn(2) == 0, NoBig: i%8 != 0})
 	m := model.Build(b)
